@@ -9,7 +9,7 @@ package event
 // most n elements in order and leaves the rest in order.
 //@ func (this *FifoBuffer[T]) Push(value T)
 //@   property C19
-//@   modifies this.buffer
+//@   modifies this.buffer, elems(this.buffer)
 //@   requires this != nil
 //@   ensures len(this.buffer) == old(len(this.buffer)) + 1
 //@   ensures this.buffer[old(len(this.buffer))] == value
